@@ -69,8 +69,26 @@ def one(cfg):
     else:
         currents = {"source": 2.0, "drain": -2.0}
     sol = tdgl.solve(dev, opts, applied_vector_potential=A, terminal_currents=currents)
+    if cfg.get("seeded_twice"):
+        # identical inputs twice in ONE process: two continuations from the same in-memory seed solution
+        import dataclasses
+        conts = []
+        for tag in ("a", "b"):
+            o2 = dataclasses.replace(opts, output_file=os.path.join(outdir, f"cont_{tag}_" + cfg.get("fname", "out.h5")),
+                                     solve_time=cfg.get("solve_time", 0.2) / 2)
+            conts.append(tdgl.solve(dev, o2, applied_vector_potential=A, terminal_currents=currents, seed_solution=sol))
+        da, db = file_digests(conts[0].path), file_digests(conts[1].path)
+        out["repeat_diff"] = sorted(k for k in set(da) | set(db) if da.get(k) != db.get(k))[:6]
+        sol = conts[1]
+    out["data"] = file_digests(sol.path)
+    out["threads"] = os.environ.get("NUMBA_NUM_THREADS")
+    return out
+
+
+def file_digests(path):
+    import h5py
     data = {}
-    with h5py.File(sol.path, "r") as f:
+    with h5py.File(path, "r") as f:
         def visit(name, obj):
             if isinstance(obj, h5py.Dataset) and not name.startswith("solution/"):
                 data[name] = digest(obj[()])
@@ -78,9 +96,7 @@ def one(cfg):
         for k in sorted(f["data"], key=int):
             a = dict(f["data"][k].attrs)
             data[f"data/{k}@attrs"] = json.dumps({kk: (float(v) if kk != "timestamp" else 0) for kk, v in a.items() if kk != "timestamp"}, sort_keys=True)
-    out["data"] = data
-    out["threads"] = os.environ.get("NUMBA_NUM_THREADS")
-    return out
+    return data
 
 
 if __name__ == "__main__":
